@@ -33,6 +33,7 @@ func (c03) Cases(tier string, seed int64, kf *KnownFindings) []Case {
 	var cs []Case
 	add := func(c Case) { c.Sub = -1; cs = append(cs, c) }
 	add(Case{Kind: "examples", Count: 1})
+	add(Case{Kind: "longform", Count: 3})
 	per, vecs := 6, 10
 	if tier == "thorough" {
 		per, vecs = 120, 200
@@ -97,6 +98,48 @@ func (c03) Run(c Case, env *Env) Result {
 		return res
 	case "scalars":
 		c03scalars(c, env, &res, opts)
+		return res
+	case "longform":
+		// a flat message of many instances, every one in the long form ('O' int) / every one in the
+		// short form / alternating: whatever a decoder keeps per instance must be released per instance
+		lo, hi := subRange(c)
+		for j := lo; j < hi; j++ {
+			n := 12500
+			l := hspec.List("")
+			want := make([]interface{}, n)
+			for i := 0; i < n; i++ {
+				l.Elems = append(l.Elems, hspec.Object("Inner", []string{"a", "s"}, hspec.Int(int32(i)), hspec.String("x")))
+				want[i] = &zoo.Inner{A: int32(i), S: "x"}
+			}
+			k := 0
+			ch := hspec.FuncChooser(func(point string, m int) int {
+				if point == "obj" {
+					k++
+					if j == 0 || (j == 2 && k%2 == 0) {
+						return m - 1 // long form
+					}
+				}
+				return 0
+			})
+			b, _ := hspec.Encode(l, ch, hspec.EncOpts{})
+			tm, _ := hessian.ExtractTypeNameMap(&zoo.Inner{})
+			res.Evals++
+			res.NT = append(res.NT, Hash64(fmt.Sprintf("longform|%d", j)))
+			cc := c
+			cc.Sub = j
+			feats := []string{"many-instances", []string{"choice:obj.O", "short-form", "choice:obj.O alternating"}[j]}
+			out, err, pi, entry := decodeBoth(b, tm)
+			switch {
+			case pi != nil:
+				env.Viol(&res, Violation{Class: "panic", Features: feats, Detail: entry + ": " + pi.Msg, Case: cc})
+			case err != nil:
+				env.Viol(&res, Violation{Class: "dec-error", Features: feats, Detail: fmt.Sprintf("%s on a flat list of %d instances (%s): %v", entry, n, hexClip(b), err), Case: cc})
+			default:
+				if d := zoo.Equiv(want, out, zoo.EquivOpts{}); d != "" {
+					env.Viol(&res, Violation{Class: "mismatch", Features: feats, Detail: d, Case: cc})
+				}
+			}
+		}
 		return res
 	}
 	e, _ := zoo.Lookup(c.Type)
@@ -298,6 +341,11 @@ func c03examples(c Case, env *Env, res *Result) {
 	}
 	cyc := &exList{Head: 1}
 	cyc.Tail = cyc
+	tm["Shr"], tm["Inner"] = reflect.TypeOf(zoo.Shr{}), reflect.TypeOf(zoo.Inner{})
+	s12 := []int32{1, 2}
+	shr12 := &zoo.Shr{S1: s12, S2: s12}
+	pp := []*zoo.Inner{{A: 5, S: "i"}, {A: 6, S: "j"}}
+	shrP := &zoo.Shr{P1: pp, P2: pp}
 	exs := []ex{
 		{"untyped variable-length list", "x57 x90 x91 Z", []interface{}{int32(0), int32(1)}, []string{"choice:list.x57"}},
 		{"typed fixed list V", "V x04 [int x92 x90 x91", []int32{0, 1}, []string{"choice:list.V"}},
@@ -323,6 +371,8 @@ func c03examples(c Case, env *Env, res *Result) {
 		{"long x59", "x59 x80 x00 x00 x00", int64(-2147483648), nil},
 		{"int I", "I x00 x00 x01 x2c", int32(300), nil},
 		{"null", "N", nil, nil},
+		{"untyped fixed-length list in a typed slice field, then a reference to it from a second field", "C x03 Shr x98 x02 s1 x02 s2 x02 m1 x02 m2 x02 p1 x02 p2 x02 pS x01 x x60 x7a x91 x92 Q x91 N N N N N N", shr12, nil},
+		{"untyped fixed-length list (x58) of objects in a typed slice field, then references from a field and an untyped position", "C x03 Shr x98 x02 s1 x02 s2 x02 m1 x02 m2 x02 p1 x02 p2 x02 pS x01 x x57 x60 N N N N x58 x92 C x05 Inner x92 x01 a x01 s x61 x95 x01 i x61 x96 x01 j Q x92 N N Q x92 Z", []interface{}{shrP, shrP.P1}, nil},
 		{"class definition in front of a string field value", "C x0b example.Car x92 x05 color x05 model x60 C x0d example.Color x91 x04 name x03 red x05 civic", &exCar{"red", "civic"}, []string{"choice:def.float"}},
 		{"class definition in front of an int field value", "C x0a LinkedList x92 x04 head x04 tail x60 C x0d example.Color x91 x04 name x91 N", &exList{Head: 1}, []string{"choice:def.float"}},
 	}
@@ -362,6 +412,8 @@ func c03examples(c Case, env *Env, res *Result) {
 		default:
 			if m := zoo.Equiv(e.want, out, zoo.EquivOpts{}); m != "" {
 				viol("mismatch", m)
+			} else if m := zoo.SameSharing(e.want, out); m != "" {
+				viol("sharing", m)
 			}
 		}
 	}
